@@ -10,7 +10,7 @@ from nix_manipulator.exceptions import ResolutionError
 from nix_manipulator.cli.manipulations import set_value
 prop, seed, N = sys.argv[1], int(sys.argv[2]), int(sys.argv[3])
 reported_as = prop
-if prop == 'C05': prop = 'C11'        # C05 run: the same edits through references, judged as "exactly the requested change" (another binding must not be rewritten)
+if prop in ('C05', 'C04'): prop = 'C11'        # C05 run: the same edits through references, judged as "exactly the requested change" (another binding must not be rewritten)
 R = random.Random(seed * 17 + sum(map(ord, prop)))
 NAMES = ['a', 'b', 'c', 'd']
 viol, dist, samples = [], {}, []
@@ -108,6 +108,13 @@ if prop == 'C11':
             try: got = ' '.join(set_value(parse(src + '\n'), 'x', new).split())
             except Exception as ex: got = 'EXC:' + type(ex).__name__
             if got != want: viol.append({'doc': src, 'path': ['x'], 'what': 'set through a reference (inherit / with / alias chain) rewrote the wrong binding', 'got': got, 'expected': want})
+            # the same edit through the mapping API: document-level item access, then assignment through the identifier
+            if old == '5' and 'mk {' not in tpl and 'assert c;' not in tpl:        # behind a call / assert wrapper item access cannot see the let (explicit ResolutionError; the wrapper gap of F-27 / F-46)
+                count('reference-templates/api')
+                try:
+                    d_ = parse(src + '\n'); d_['x'].value = 9; got2 = ' '.join(d_.rebuild().split())
+                except Exception as ex: got2 = 'EXC:' + type(ex).__name__
+                if got2 != want: viol.append({'doc': src, 'path': ['x'], 'what': 'assignment through the identifier fetched with doc[key] rewrote the wrong binding', 'got': got2, 'expected': want})
 # ---- sequences of edits through references on ONE document object (third round of seeds): every step must have the effect
 # it has on a fresh parse of the text the previous step printed — the defining binding is looked up anew each time
 if prop == 'C11':
@@ -206,8 +213,9 @@ if prop == 'C10':
         want = 'RESERR' if missing else val(body)
         got = call_value(text); count('applied-function/%s/%s' % (style, 'refuse' if want == 'RESERR' else 'value'))
         if got != want: viol.append({'doc': text, 'what': 'applied function: Nix gives %s for the body name, resolution gives %s' % (want, got)})
-    for text, want in [('(x: x) 5\n', '5'), ('(x: y) 5\n', 'RESERR'), ('({ x }: x) 1\n', 'RESERR'), ('x { a = 1; }\n', 'NOSCOPE')]:
-        got = call_value(text); count('applied-function/fixed')
+    for text, want in [('({ a ? 0 }: a) { a.b = 1; }\n', '{ b = 1; }'), ('({ a }: a) { a.b = 1; }\n', '{ b = 1; }'), ('({ a ? 0, c }: a) { a.b.d = 1; c = 2; }\n', '{ b.d = 1; }'), ('({ a ? 0, c }: c) { a.b.d = 1; c = 2; }\n', '2'),
+                       ('(x: x) 5\n', '5'), ('(x: y) 5\n', 'RESERR'), ('({ x }: x) 1\n', 'RESERR'), ('x { a = 1; }\n', 'NOSCOPE')]:
+        got = ' '.join(call_value(text).split()); count('applied-function/fixed')
         if got != want: viol.append({'doc': text, 'what': 'applied function: expected %s, resolution gives %s' % (want, got)})
 # ---- inherit and inherit (src) (coverage probe: the inherit branch of _resolve_identifier was never executed): an inherited name is
 # followed to its source — a let-bound attribute set, the enclosing scope — an inner let shadows it, a source without the
